@@ -689,6 +689,7 @@ func runC16(cfg Config) {
 	}
 	c16LargeChunks(cfg, rep, rng)
 	c16WindowChunks(cfg, rep, rng)
+	runGCSPrune(cfg, rep, m, rng)
 	rep.Write(cfg.Out)
 }
 
